@@ -20,10 +20,11 @@ type Win struct {
 	A       int `json:"a"`
 	B       int `json:"b"`
 	Partial int `json:"partial,omitempty"`
+	Fix     int `json:"fix,omitempty"` // fixture construction order, see kit.AnyRootWindow
 }
 
 func (w Win) valid(C int) bool {
-	if w.Kr < 0 || w.A < 0 || w.A > w.B || w.B > w.Kr || w.Partial < 0 || C*w.Kr > 1<<20 {
+	if w.Kr < 0 || w.A < 0 || w.A > w.B || w.B > w.Kr || w.Partial < 0 || C*w.Kr > 1<<20 || w.Fix < 0 || w.Fix > 2 {
 		return false
 	}
 	return w.Partial == 0 || (w.Partial < C && w.B < w.Kr)
@@ -39,11 +40,7 @@ type Case struct {
 }
 
 func build(name string, C int, w Win) (root, win kit.AnyBuf, model []kit.Val, off, n int) {
-	root = kit.AnyRoot(name, C, w.Kr)
-	win = root.Slice(w.A, w.B)
-	for k := 0; k < w.Partial; k++ {
-		win.AppendSample(kit.IV(kit.PartialVal(k)))
-	}
+	root, win = kit.AnyRootWindow(name, C, w.Kr, w.A, w.B, w.Partial, w.Fix)
 	return root, win, root.Snap(), C * w.A, C*(w.B-w.A) + w.Partial
 }
 
@@ -76,8 +73,12 @@ func Check(c *Case) (res kit.Result) {
 	C := c.C
 	sroot, src, _, soff, sn := build(c.S, C, c.Src)
 	droot, dst, dmodel, doff, dn := build(c.D, C, c.Dst)
+	// source samples are written through the root (not through the window header)
 	for k := 0; k < sn; k++ {
-		src.Set(k, c.Vals[k%len(c.Vals)])
+		sroot.Set(soff+k, c.Vals[k%len(c.Vals)])
+	}
+	if c.Src.Fix != 0 || c.Dst.Fix != 0 {
+		res.Class("headerNeverWrittenThrough")
 	}
 	smodel := sroot.Snap()
 	sh, dh, srh, drh := src.Hdr(), dst.Hdr(), sroot.Hdr(), droot.Hdr()
@@ -166,7 +167,7 @@ func FP(c *Case) uint64 {
 	h := kit.NewHasher()
 	h.Str(c.S)
 	h.Str(c.D)
-	h.Ints([]int{c.C, c.Src.Kr, c.Src.A, c.Src.B, c.Src.Partial, c.Dst.Kr, c.Dst.A, c.Dst.B, c.Dst.Partial})
+	h.Ints([]int{c.C, c.Src.Kr, c.Src.A, c.Src.B, c.Src.Partial, c.Src.Fix, c.Dst.Kr, c.Dst.A, c.Dst.B, c.Dst.Partial, c.Dst.Fix})
 	for _, v := range c.Vals {
 		if v.K == 'f' {
 			h.U64(math.Float64bits(v.F))
@@ -189,6 +190,7 @@ func genWin(t *rapid.T, label string, C int) Win {
 	if w.B < w.Kr && C >= 2 && rapid.IntRange(0, 3).Draw(t, label+"PartialSel") == 0 {
 		w.Partial = rapid.IntRange(1, C-1).Draw(t, label+"Partial")
 	}
+	w.Fix = rapid.IntRange(0, 2).Draw(t, label+"Fix")
 	return w
 }
 
